@@ -1,7 +1,8 @@
 SPECIFICATION Spec
 CONSTANTS
- Peers = {1, 2, 3, 4}
- MaxSends = 8
+ Peers = {1, 2, 3}
+ MaxSends = 6
+ MaxCancels = 2
  Dev = {"push_twice"}
 INVARIANT Refines
 CHECK_DEADLOCK FALSE
